@@ -150,6 +150,14 @@ class FnVerifier(ExprMixin, StmtMixin, CallMixin):
 
     # ------------------------------------------------------------------ entry
     def assume_typed(self, sv, st, depth=1):
+        n0 = len(st.pc)
+        self._assume_typed(sv, st, depth)
+        if not hasattr(self, '_typing_ids'):
+            self._typing_ids = set()
+        for f in st.pc[n0:]:
+            self._typing_ids.add(f.get_id())
+
+    def _assume_typed(self, sv, st, depth=1):
         """facts every well-typed value satisfies: allocated refs with the right dynamic class, class invariants"""
         if isinstance(sv, SeqV):
             st.assume(sv.n >= 0)
@@ -159,7 +167,7 @@ class FnVerifier(ExprMixin, StmtMixin, CallMixin):
             if sort_of(t) == Ref:
                 inner = SV(t.args[0], sv.z)
                 tmp = State(st.env, st.heap, [])
-                self.assume_typed(inner, tmp, depth)
+                self._assume_typed(inner, tmp, depth)
                 if tmp.pc:
                     st.assume(z3.Or(sv.z == NULL, z3.And(*tmp.pc)))
             return
@@ -296,11 +304,18 @@ class FnVerifier(ExprMixin, StmtMixin, CallMixin):
         st.assume(cond)
 
     # ------------------------------------------------------------------ frame
+    def in_mod(self, r, m):
+        """r is (one of) the object(s) denoted by the modifies entry m: a reference, or elements(list) = every element of a sequence"""
+        if isinstance(m, SeqV):
+            i = z3.Int('i!me')
+            return z3.Exists([i], z3.And(0 <= i, i < m.n, z3.Select(m.arr, i) == r))
+        return r == m.z
+
     def check_write(self, st, r, node, what='write'):
         """writes are allowed to objects allocated during this call or listed in `modifies`"""
         if self.specmode:
             return
         fresh_here = z3.Not(z3.Select(self.entry.H(key_alloc()), r))
-        ok = z3.Or(fresh_here, *[r == m.z for m in self.modset if not isinstance(m, SeqV)])
+        ok = z3.Or(fresh_here, *[self.in_mod(r, m) for m in self.modset])
         self.oblige('frame.' + self.label(what, node), st, ok, node, kind='frame',
                     text='write to an object outside modifies (line %d)' % getattr(node, 'lineno', 0))
